@@ -1,7 +1,10 @@
 /-
   Driver for the channel-stream model (stateful).  Requests → replies:
     new <k>                       → ok            (k open channels 0..k-1)
-    data <c> <hex> | ext <c> <code> <hex> | eof <c> | exit <c> <v> | combine <c> <0|1>   → ok | nochan
+    data <c> <hex> | ext <c> <code> <hex> | eof <c> | exit <c> <v> | rclose <c>   (peer messages)
+                                  → ok | dropped (dead channel) | unknown (run loop ends) | down (run loop has ended)
+    open <c>                      → ok | inuse | down
+    close <c> | combine <c> <0|1> → ok | nochan
     recv <c> <n> | recverr <c> <n>   → data:<hex> | timeout | nochan
     state <c>                     → out=<hex> err=<hex> combine=<0|1> eof=<0|1> exit=<v|none> | nochan
     witness                       → the history of `race_witness_before_fix`
@@ -15,49 +18,71 @@ def showRes : Option Res → String
   | some .timeout => "timeout"
   | none => "none"
 
-def apply (m : Table) (a : Act) (reply : Chan → String) : Table × String :=
-  match (m[a.chan]?).join with
-  | none => (m, "nochan")
+def b01 (b : Bool) : String := if b then "1" else "0"
+
+/-- peer message -/
+def arrive (t : Table) (a : Act) : Table × String :=
+  let reply :=
+    if !t.alive then "down"
+    else match lookup t.l a.chan with
+      | none => "unknown"
+      | some ch => if ch.linked then "ok" else "dropped"
+  (stepL t a, reply)
+
+/-- application call -/
+def call (t : Table) (a : Act) (reply : Chan → String) : Table × String :=
+  match lookup t.l a.chan with
+  | none => (t, "nochan")
   | some _ =>
-    let m' := stepL m a
-    (m', match (m'[a.chan]?).join with | some ch => reply ch | none => "nochan")
+    let t' := stepL t a
+    (t', match lookup t'.l a.chan with | some ch => reply ch | none => "nochan")
 
 def dstep (m : Table) (line : String) : Table × String :=
   match words line with
   | ["new", k] => match k.toNat? with | some k => (freshL k, "ok") | none => (m, "bad-op")
   | ["data", c, h] =>
     match c.toNat?, ofHex? h with
-    | some c, some d => apply m (.data c d) (fun _ => "ok")
+    | some c, some d => arrive m (.data c d)
     | _, _ => (m, "bad-op")
   | ["ext", c, code, h] =>
     match c.toNat?, code.toNat?, ofHex? h with
-    | some c, some code, some d => apply m (.ext c code d) (fun _ => "ok")
+    | some c, some code, some d => arrive m (.ext c code d)
     | _, _, _ => (m, "bad-op")
-  | ["eof", c] => match c.toNat? with | some c => apply m (.eof c) (fun _ => "ok") | none => (m, "bad-op")
+  | ["eof", c] => match c.toNat? with | some c => arrive m (.eof c) | none => (m, "bad-op")
+  | ["rclose", c] => match c.toNat? with | some c => arrive m (.remoteClose c) | none => (m, "bad-op")
   | ["exit", c, v] =>
     match c.toNat?, v.toNat? with
-    | some c, some v => apply m (.exitStatus c v) (fun _ => "ok")
+    | some c, some v => arrive m (.exitStatus c v)
     | _, _ => (m, "bad-op")
+  | ["open", c] =>
+    match c.toNat? with
+    | some c =>
+      let reply := if !m.alive then "down" else match lookup m.l c with
+        | some ch => if ch.linked then "inuse" else "ok"
+        | none => "ok"
+      (stepL m (.open c), reply)
+    | none => (m, "bad-op")
+  | ["close", c] => match c.toNat? with | some c => call m (.close c) (fun _ => "ok") | none => (m, "bad-op")
   | ["combine", c, b] =>
     match c.toNat?, b with
-    | some c, "1" => apply m (.setCombine c true) (fun _ => "ok")
-    | some c, "0" => apply m (.setCombine c false) (fun _ => "ok")
+    | some c, "1" => call m (.setCombine c true) (fun _ => "ok")
+    | some c, "0" => call m (.setCombine c false) (fun _ => "ok")
     | _, _ => (m, "bad-op")
   | ["recv", c, n] =>
     match c.toNat?, n.toNat? with
-    | some c, some n => apply m (.recv c n) (fun ch => showRes ch.last)
+    | some c, some n => call m (.recv c n) (fun ch => showRes ch.last)
     | _, _ => (m, "bad-op")
   | ["recverr", c, n] =>
     match c.toNat?, n.toNat? with
-    | some c, some n => apply m (.recvErr c n) (fun ch => showRes ch.last)
+    | some c, some n => call m (.recvErr c n) (fun ch => showRes ch.last)
     | _, _ => (m, "bad-op")
   | ["state", c] =>
     match c.toNat? with
     | some c =>
-      match (m[c]?).join with
-      | some ch => (m, "out=" ++ toHexTok ch.out ++ " err=" ++ toHexTok ch.err ++ " combine=" ++
-          (if ch.combine then "1" else "0") ++ " eof=" ++ (if ch.eof then "1" else "0") ++ " exit=" ++
-          (match ch.exit with | some v => toString v | none => "none"))
+      match lookup m.l c with
+      | some ch => (m, "out=" ++ toHexTok ch.out ++ " err=" ++ toHexTok ch.err ++ " combine=" ++ b01 ch.combine ++
+          " eof=" ++ b01 ch.eof ++ " closed=" ++ b01 ch.closed ++ " linked=" ++ b01 ch.linked ++ " exit=" ++
+          (match ch.exit with | some v => toString v | none => "none") ++ " alive=" ++ b01 m.alive)
       | none => (m, "nochan")
     | none => (m, "bad-op")
   | ["witness"] => (m, "ext 0 1 41;combine-old-a 0;ext 0 1 42;combine-old-b 0;recv 0 10")
